@@ -20,3 +20,4 @@ open O2P.Gate
 #print axioms missing_and_all_sound
 #print axioms post_process_sound
 #print axioms filter_defunct_sound
+#print axioms post_process_admits
